@@ -25,7 +25,9 @@ Inductive expr :=
 | EIndex (base idx : expr)
 | ESlice (base lo hi : expr)                        (* x[lo:hi]; an omitted bound is the empty string, as in the CST *)
 | ECall (f : bytes) (args : list expr)
-| EFun1 (f : fun1) (a : expr).
+| EFun1 (f : fun1) (a : expr)
+| EPosName (i : expr)                               (* $[[i]] *)
+| EPosVal (i : expr).                               (* $[[[i]]] *)
 
 Inductive lbase := LField (k : bytes) | LOos (k : bytes) | LLocal (x : bytes).
 
@@ -49,7 +51,10 @@ Inductive stmt :=
 | SEmitNamed (name : bytes) (e : expr) (keys : list bytes)  (* emit @name / emit name [, "k1", ...] *)
 | SFilter (e : expr)
 | SBare (e : expr)
-| SCall (name : bytes) (args : list expr).        (* call of a subroutine *)
+| SCall (name : bytes) (args : list expr)         (* call of a subroutine *)
+| SAssignPosName (i e : expr)                       (* $[[i]] = e : rename *)
+| SAssignPosVal (i e : expr)                        (* $[[[i]]] = e *)
+| SEmitF (items : list (bytes * expr)).             (* emitf @a, @b: one record with those names *)
 
 (* user-defined functions and subroutines (f_sub = true; separate name spaces, f_ret unused) *)
 Record fdef := { f_name : bytes; f_sub : bool; f_params : list (tyname * bytes); f_ret : tyname; f_body : list stmt }.
@@ -259,6 +264,27 @@ Definition eval_expr (e : expr) (st : state) : res (tres * state) :=
       do (vb, st1) <- ev b st; do (vl, st2) <- ev lo st1; do (vh, st3) <- ev hi st2; rv (slice_read vb vl vh) st3
   | ECall f args => eval_call f args st
   | EFun1 f a => do (va, st1) <- ev a st; rv (apply_fun1 f va) st1
+  | EPosName i =>
+      (* PositionalFieldNameNode.Evaluate (with the nil-record guard of fix 600e7ca15) *)
+      do (vi, st1) <- ev i st;
+      match vi with
+      | VAbsent => rv VAbsent st1
+      | VInt p => rv (match inrec st1 with
+                      | Some r => match pos_name r p with Some k => VStr k | None => VAbsent end
+                      | None => VAbsent
+                      end) st1
+      | _ => rv VError st1
+      end
+  | EPosVal i =>
+      do (vi, st1) <- ev i st;
+      match vi with
+      | VAbsent => rv VAbsent st1
+      | VInt p => rv (match inrec st1 with
+                      | Some r => match pos_value r p with Some v => v | None => VAbsent end
+                      | None => VAbsent
+                      end) st1
+      | _ => rv VError st1
+      end
   end.
 
 (* ---- assignments: lvalues.go *)
@@ -522,6 +548,42 @@ Definition exec_stmt (s : stmt) (st : state) : res (tres * state) :=
   | SFilter e => do (v, st1) <- ev e st; ro ONormal (set_filt v st1)
   | SBare e => do (v, st1) <- ev e st; ro ONormal st1
   | SCall name args => exec_call name args st
+  | SAssignPosName i e =>
+      (* PositionalFieldNameLvalueNode.Assign: out-of-range position and unusable name are no-ops *)
+      do (v, st1) <- ev e st;
+      match v with
+      | VAbsent => ro ONormal st1
+      | _ =>
+          match inrec st1 with
+          | None => ro OErr st1
+          | Some _ =>
+              do (vi, st2) <- ev i st1;
+              match vi, inrec st2 with
+              | VInt p, Some r => ro ONormal (set_inrec (Some (pos_put_name r p v)) st2)
+              | _, _ => ro OErr st2
+              end
+          end
+      end
+  | SAssignPosVal i e =>
+      do (v, st1) <- ev e st;
+      match v with
+      | VAbsent => ro ONormal st1
+      | _ =>
+          match inrec st1 with
+          | None => ro OErr st1
+          | Some _ =>
+              do (vi, st2) <- ev i st1;
+              match vi, inrec st2 with
+              | VInt p, Some r => ro ONormal (set_inrec (Some (pos_put_value r p v)) st2)
+              | _, _ => ro OErr st2
+              end
+          end
+      end
+  | SEmitF items =>
+      (* EmitFStatementNode.Execute: one record, absent values skipped, PutCopy in order *)
+      do (vs, st1) <- evs (map snd items) st;
+      ro ONormal (emit_item (ORec (fold_left (fun r kv => match snd kv with VAbsent => r | v => mput (fst kv) v r end)
+                                             (combine (map fst items) vs) [])) st1)
   end.
 
 Definition cond_bool (v : value) : option bool := match v with VBool b => Some b | _ => None end.
